@@ -273,7 +273,7 @@ class Body:
         if self._detail is None:
             raw = self._facts._detail_for(self.unit)[self.path]
             import inline
-            self._detail = inline.inline_detail(self._facts, self, raw)
+            self._detail = inline.normalise_result_returns(inline.normalise_bool_returns(inline.inline_detail(self._facts, self, raw)))
         return self._detail
 
     @property
